@@ -16,7 +16,7 @@ file is one of the property's anchors.  gen/BugSites.v also carries the file and
 
 The table is used for (1) coverage accounting: which listed sites were reached by a generated program (panic location
 or `caused from:` trailer) - the expectation is none outside the known classes; (2) noticing that a changed tree has a
-site the committed baseline (known/C07_sites_baseline.json) did not have: reported in the evidence as new_sites
+site the committed baseline (corpus/C07/sites_baseline.json) did not have: reported in the evidence as new_sites
 (a note, not an alarm); (3) resolving a crash observation to (file id, function id) for the Coq class predicates.
 """
 import os
